@@ -123,9 +123,33 @@ Proof. exact src_slow_path_ok. Qed.
 Theorem C18_source_frames : forallb snd src_frames = true.
 Proof. exact src_frames_ok. Qed.
 
+(* the capacity constructor as /repo has it: its two assertions are the model's ctor_ok, the zero
+   test and the layout are with_capacity's, new_chunk_memory_details is given no size (the default
+   chunk size is the floor), and one chunk is acquired with no limit in place (pinned statements
+   ctor_zero_takes_nothing, ctor_one_chunk_no_limit of src_frames) *)
+From BV Require Import ArenaSource.
+Theorem C18_source_constructor : forall m cap,
+  let en := cenv m in
+  call_fn src_fns en "ctor_align_is_pow2" [VN cap] = RustSem.Ret (VB (pow2b m)) /\
+  call_fn src_fns en "ctor_align_small" [VN cap] = RustSem.Ret (VB (m <=? actual_calign)) /\
+  call_fn src_fns en "ctor_capacity_zero" [VN cap] = RustSem.Ret (VB (cap =? 0)) /\
+  call_fn src_fns en "ctor_layout" [VN cap]
+    = RustSem.Ret (if layout_ok cap m then vlayout (mkLayout cap m) else VNone) /\
+  call_fn src_fns en "ctor_given_size" [VN cap] = RustSem.Ret VNone.
+Proof. exact src_ctor_ok. Qed.
+
+Theorem C18_constructor_assembled_from_source_parts : forall k A b cap,
+  ctor_ok k = pow2b (k_malign k) && (k_malign k <=? k_calign k) /\
+  with_capacity k A b cap =
+  with_capacity_assembled k A b cap (cap =? 0)
+    (if layout_ok cap (k_malign k) then Some (mkLayout cap (k_malign k)) else None).
+Proof. intros. split; [reflexivity | apply with_capacity_is_assembled]. Qed.
+
 Print Assumptions C18_source_chunk_capacity.
 Print Assumptions C18_source_slow_path.
 Print Assumptions C18_source_frames.
+Print Assumptions C18_source_constructor.
+Print Assumptions C18_constructor_assembled_from_source_parts.
 
 (* ---- whole histories (ArenaGrowth.v) ---- *)
 From BV Require Import ArenaGrowth.
